@@ -44,6 +44,103 @@ func init() {
 		}
 		return resOK(out)
 	})
+	// op mtls.sibling: two allow-lists built from ONE caller-owned key slice; Replace on the first must change
+	// neither the second nor the caller's slice.  {"initial":[kid…],"replace":[kid…],"probe":[kid…]}
+	RegOp("mtls.sibling", func(in J) any {
+		in = normalise(in).(map[string]any)
+		shared := mtlsPubs(jArr(in["initial"]))
+		before := make([]string, len(shared))
+		for i, k := range shared {
+			before[i] = hexs(k)
+		}
+		a, err := mtls.ValidPublicKeysFromEd25519(shared...)
+		if err != nil {
+			return resErr("construct", err)
+		}
+		b, err := mtls.ValidPublicKeysFromEd25519(shared...)
+		if err != nil {
+			return resErr("construct", err)
+		}
+		np, err := mtls.ValidPublicKeysFromEd25519(mtlsPubs(jArr(in["replace"]))...)
+		if err != nil {
+			return resErr("construct", err)
+		}
+		a.Replace(np)
+		var bk, after []any
+		for _, k := range b.Keys() {
+			bk = append(bk, hexs(k))
+		}
+		for _, k := range shared {
+			after = append(after, hexs(k))
+		}
+		acc := []any{}
+		for _, p := range jArr(in["probe"]) {
+			_, priv := mtlsKey(jInt(p))
+			if b.VerifyPeerCertificate()([][]byte{mtlsSelfSigned(priv)}, nil) == nil {
+				acc = append(acc, S(jInt(p)))
+			}
+		}
+		return resOK(J{"sibling_keys": bk, "caller_slice": after, "sibling_accepts": acc, "_before": before})
+	})
+	RegGen("C20", "mtls.sibling (implementation only): two allow-lists built from one caller-owned slice, Replace on one of them (lists shorter, equal and longer than the old capacity)", func(g *G) {
+		for i := 0; i < g.N(40, 400); i++ {
+			var ini, rep []any
+			for j := 1 + g.R.Intn(5); j > 0; j-- {
+				ini = append(ini, S(1+g.R.Intn(6)))
+			}
+			for j := 1 + g.R.Intn(6); j > 0; j-- {
+				rep = append(rep, S(7+g.R.Intn(6)))
+			}
+			probe := []any{}
+			for kid := 1; kid <= 12; kid++ {
+				probe = append(probe, S(kid))
+			}
+			g.EmitImpl(J{"op": "mtls.sibling", "initial": ini, "replace": rep, "probe": probe}, "sibling")
+		}
+	})
+	RegMonitor("C20", func(op J, res any) (viol []Violation, nontrivial bool) {
+		if jStr(op["op"]) != "mtls.sibling" {
+			return nil, false
+		}
+		r := jObj(res)
+		bad := func(sig, d string) { viol = append(viol, Violation{Sig: "C20/" + sig, Desc: d, Op: op, Res: res}) }
+		if r["panic"] != nil {
+			bad("replace-panic", "Replace / Keys / verification panicked")
+			return viol, true
+		}
+		o := jObj(r["ok"])
+		if o == nil {
+			return nil, false
+		}
+		want := map[string]bool{}
+		var wantKeys []string
+		for _, k := range jArr(op["initial"]) {
+			pub, _ := mtlsKey(jInt(k))
+			want[S(jInt(k))] = true
+			wantKeys = append(wantKeys, hexs(pub))
+		}
+		got := func(v any) []string {
+			out := []string{}
+			for _, k := range jArr(v) {
+				out = append(out, jStr(k))
+			}
+			return out
+		}
+		if fmt.Sprint(got(o["sibling_keys"])) != fmt.Sprint(wantKeys) || fmt.Sprint(got(o["caller_slice"])) != fmt.Sprint(wantKeys) {
+			bad("replace-leaks-into-sibling", "Replace on one allow-list changed another allow-list (or the caller's key slice) built from the same slice")
+		}
+		acc := map[string]bool{}
+		for _, a := range jArr(o["sibling_accepts"]) {
+			acc[jStr(a)] = true
+		}
+		for _, p := range jArr(op["probe"]) {
+			k := S(jInt(p))
+			if acc[k] != want[k] {
+				bad("replace-leaks-into-sibling", fmt.Sprintf("the allow-list that was never replaced now answers %v for key %s", acc[k], k))
+			}
+		}
+		return viol, true
+	})
 	RegGen("C20", "mtls.replace_seq (implementation only): sequences of Replace with lists of varying length (shrink, then grow within and beyond the previous capacity); after each one Keys() and the verification of every key ever listed are compared with the list just installed", func(g *G) {
 		for i := 0; i < g.N(60, 800); i++ {
 			var lists []any
